@@ -3,6 +3,7 @@ package main
 import (
 	"fmt"
 	"go/ast"
+	"go/types"
 	"go/token"
 	"sort"
 	"strings"
@@ -15,10 +16,12 @@ import (
 
 func init() {
 	reg("C19.bounds", ruleBoundsCorrupt)
+	reg("C05.localidx", ruleLocalIdx)
 	f := "parsed_serialize.go"
 	regWitness(
 		Witness{Rule: "C19.bounds", Name: "no-values-check", File: f, After: "case TagObjectStart, TagArrayStart:", Old: "\t\t\tif len(values) < 8 {\n\t\t\t\treturn dst, fmt.Errorf(\"reading %v: no values left\", tag)\n\t\t\t}\n", New: "", Breaks: "a truncated values block panics in Deserialize"},
 		Witness{Rule: "C19.bounds", Name: "cap-instead-of-len", File: f, Nth: 1, Old: "if val > uint64(len(dst.Tape)) {", New: "if val > uint64(cap(dst.Tape)) {", Breaks: "with a reused destination a container end between len and cap indexes past the tape"},
+		Witness{Rule: "C05.localidx", Name: "marshal-stack-reslice", File: "parsed_json.go", Old: "\t\t\tstack = append(stack, stackArray)\n", New: "\t\t\tstack = stack[:len(stack)+1]\n\t\t\tstack[len(stack)-1] = stackArray\n", Breaks: "a document nested deeper than the scratch array panics in MarshalJSON"},
 		Witness{Rule: "C19.bounds", Name: "float-no-tape-check", File: "parsed_json.go", After: "func (i *Iter) Float() (float64, error) {", Old: "\t\tif i.off >= len(i.tape.Tape) {\n\t\t\treturn 0, errors.New(\"corrupt input: expected float, but no more values on tape\")\n\t\t}\n", New: "", Breaks: "a float tag as the last tape word panics in Iter.Float"},
 	)
 }
@@ -507,7 +510,13 @@ func ruleBoundsCorrupt(c *Ctx) {
 		if strings.HasPrefix(fn, "Iter.") || strings.HasPrefix(fn, "Object.") || strings.HasPrefix(fn, "Array.") || strings.HasPrefix(fn, "ParsedJson.") || strings.HasPrefix(fn, "Elements.") {
 			short = fn
 		}
-		n, fnd := checkBoundsOnPaths(c, p, short, sps, accs, relevantBase, extra)
+		rel := relevantBase
+		if fn == "Serializer.Deserialize" || fn == "Serializer.decBlock" {
+			// in the decoder every position is computed from untrusted bytes: views of the tape or of a section held in a
+			// local (`tape := dst.Tape[:cap(dst.Tape)]`) are accessed under the same obligations as the fields themselves
+			rel = func(string) bool { return true }
+		}
+		n, fnd := checkBoundsOnPaths(c, p, short, sps, accs, rel, extra)
 		total += n
 		var keys []string
 		for k := range fnd {
@@ -576,4 +585,76 @@ func unwrapAdds(env *SymEnv, fs *factSet, g Aff, bound Aff, extra map[string]boo
 		}
 	}
 	return out
+}
+
+// C05.localidx — the traversal/marshalling API indexes and re-slices not only the tape but also its own working storage
+// (the marshaller's scope stack, path slices, scratch buffers). Every such access with a non-constant position is an
+// obligation proved from the guards of its own path, exactly like C19.bounds does for tape/message/string accesses: a
+// working array of fixed size that is indexed by the nesting depth of the document panics on a deep (accepted) document.
+func ruleLocalIdx(c *Ctx) {
+	p := c.G()
+	total, nFuncs := 0, 0
+	var all []boundsFinding
+	for _, fn := range corruptScope {
+		if fn == "Serializer.Deserialize" || fn == "Serializer.decBlock" {
+			continue
+		}
+		fd := p.Func(fn)
+		if fd == nil {
+			c.Unresolved(fn, "function in the traversal scope not found")
+			continue
+		}
+		nFuncs++
+		fg := p.FGOf(fd)
+		nn := monotoneLocals(p, fd)
+		paths, ok := fg.EnumPaths(0, 0, 2, 20000, nil)
+		if !ok {
+			paths, ok = fg.AllPaths(200000)
+		}
+		if !ok {
+			c.Undecided(fn+":paths", p.Pos(fd), "too many paths")
+			continue
+		}
+		sps, accs := symPathsWithAccess(p, fd, paths, nil)
+		extra := map[string]bool{}
+		for n := range nn {
+			extra[n] = true
+		}
+		// arrays indexed by an 8-bit value are C19.bytetab's obligations
+		for pi := range accs {
+			var keep []SymAccess
+			for _, a := range accs[pi] {
+				if ix, ok := a.Node.(*ast.IndexExpr); ok && a.IsArr > 0 {
+					if tv, ok := p.Info.Types[ix.Index]; ok && tv.Type != nil {
+						if b, ok := tv.Type.Underlying().(*types.Basic); ok && (b.Kind() == types.Uint8 || b.Kind() == types.Int8) {
+							continue
+						}
+					}
+				}
+				keep = append(keep, a)
+			}
+			accs[pi] = keep
+		}
+		n, fnd := checkBoundsOnPaths(c, p, fn, sps, accs, func(b string) bool { return !relevantBase(b) }, extra)
+		total += n
+		var keys []string
+		for k := range fnd {
+			// capacity obligations only: a position inside a fixed array, a re-slice beyond the length. Whether a grown
+			// slice is non-empty (`stack[len(stack)-1]`) is a value invariant (the sentinel frame is never popped,
+			// C10.loop) and the index/element agreement of Elements is C12.parse's.
+			if strings.HasSuffix(k, ":high <= cap") || (strings.Contains(k, ":index < ") && !strings.HasSuffix(k, ":index < len")) {
+				keys = append(keys, k)
+			}
+		}
+		sort.Strings(keys)
+		for _, k := range keys {
+			all = append(all, fnd[k])
+		}
+		c.Ok(fn+":capacity", p.Pos(fd), fmt.Sprintf("working-storage accesses of %d paths stay inside their arrays and capacities", len(paths)))
+	}
+	for _, f := range all {
+		c.Bad(f.site, f.pos, f.msg, "a deeply nested or otherwise extreme accepted document")
+	}
+	c.Unit("local_bounds_obligations_proved", total)
+	c.MinCount("functions in the traversal scope", nFuncs, 43)
 }
